@@ -60,6 +60,11 @@ func (h *harness) tailCase(r *rng, name string) {
 		if emptyRec {
 			k = []byte{}
 		}
+		longKey := !emptyRec && !onePer && r.chance(3) // the last legal key lengths (16-bit size arithmetic)
+		if longKey {
+			k = patternBytes(65530+r.intn(6), byte(r.next()))
+			h.stat("tail.longkey")
+		}
 		keys = append(keys, k)
 		if r.chance(20) {
 			_ = db.Delete(k)
@@ -73,8 +78,11 @@ func (h *harness) tailCase(r *rng, name string) {
 				n = 0
 				h.stat("tail.emptyrecord")
 			}
+			if longKey {
+				n = r.intn(20)
+			}
 			room := int(c.Cfg.MaxSeg) - 512 - 10 - len(k)
-			if n > room {
+			if n > room && room >= 0 {
 				n = r.intn(room + 1)
 			}
 			_ = db.Put(k, patternBytes(n, byte(r.next())))
@@ -230,7 +238,7 @@ func (h *harness) tailCase(r *rng, name string) {
 		var before, after runtime.MemStats
 		runtime.GC()
 		runtime.ReadMemStats(&before)
-		db2, err := pogreb.Open(dbDir, o2)
+		db2, err := safeOpen(dbDir, o2)
 		runtime.ReadMemStats(&after)
 		if err != nil {
 			h.emit("open kind=recover res=%s", errStr(err))
@@ -261,7 +269,7 @@ func (h *harness) tailCase(r *rng, name string) {
 			h.stat("tail.restart")
 			err = db2.Close()
 			h.emit("close %s", errStr(err))
-			db2, err = pogreb.Open(dbDir, o2)
+			db2, err = safeOpen(dbDir, o2)
 			if err != nil {
 				h.emit("open kind=clean res=%s", errStr(err))
 				h.emit("end")
@@ -277,7 +285,7 @@ func (h *harness) tailCase(r *rng, name string) {
 		}
 		fs2.Kill()
 		h.emit("kill")
-		db3, err := pogreb.Open(dbDir, o2)
+		db3, err := safeOpen(dbDir, o2)
 		if err != nil {
 			h.emit("open kind=recover res=%s", errStr(err))
 		} else {
@@ -329,4 +337,15 @@ func (h *harness) osAlloc(im *simfs.Image, opts *pogreb.Options, fsName string) 
 	}
 	db.Close()
 	return after.TotalAlloc - before.TotalAlloc, true
+}
+
+// safeOpen: a panic inside the recovering Open is a failure of the property (the recovering Open
+// neither fails nor panics), not of the harness.
+func safeOpen(dir string, o *pogreb.Options) (db *pogreb.DB, err error) {
+	defer func() {
+		if e := recover(); e != nil {
+			db, err = nil, fmt.Errorf("panic: %v", e)
+		}
+	}()
+	return pogreb.Open(dir, o)
 }
